@@ -94,6 +94,7 @@ type progResult struct {
 	instrs   int
 	outs     []outcome
 	budgetMs int64
+	mcGround, mcGeneric int
 }
 
 var self string
@@ -198,6 +199,8 @@ func runProgram(dir string, jobs []string, fixedBudget time.Duration) progResult
 				return pr
 			case strings.HasPrefix(l, "LOAD ok "):
 				fmt.Sscanf(l, "LOAD ok %d %d %d", &pr.loadMs, &pr.funcs, &pr.instrs)
+			case strings.HasPrefix(l, "KINDS "):
+				fmt.Sscanf(l, "KINDS %d %d", &pr.mcGround, &pr.mcGeneric)
 			case strings.HasPrefix(l, "BEGIN "):
 				inProgress = strings.TrimPrefix(l, "BEGIN ")
 			case strings.HasPrefix(l, "END "):
@@ -358,9 +361,9 @@ func main() {
 	only := os.Getenv("VERIF_C07_ONLY") // debugging aid: "model" | "sweep" | "corpus"
 	if only == "" || only == "model" {
 		checkHasPath(rep, shape)
-		checkTraces(rep)
 	}
 	if only == "model" {
+		checkTraces(rep)
 		rep.Finish()
 		return
 	}
@@ -429,6 +432,12 @@ func main() {
 			}
 		}
 		rep.Count(fmt.Sprintf("instrs<=%d", bucket(pr.instrs)))
+		rep.Dist["MultiConvert-in-generic-bodies"] += pr.mcGeneric
+		rep.Dist["MultiConvert-in-ground-functions"] += pr.mcGround
+		if pr.mcGround > 0 {
+			// the committed exclusion list of dispatch_total (Spec.genericOnlyKinds) is wrong for this program
+			addFailure("dispatch:MultiConvert-in-ground-function", "an ssa.MultiConvert occurs in a non-generic function: lang.InstrSwitch has no case for it (panic(instr)) and Spec.genericOnlyKinds wrongly excludes it from dispatch_total", it, outcome{job: "load", status: "kinds"})
+		}
 	}
 	defaultFail := func(it *sweepItem, pr progResult) {
 		o := pr.outs[0]
@@ -603,6 +612,9 @@ func main() {
 		rep.Count("failure:" + k)
 		rep.Dist["failure:"+k] = f.n
 		rep.Fail(k, fmt.Sprintf("%s (%d occurrence(s) in this run; smallest program: %s)", f.what, f.n, f.it.id), replayText(f.it, f.o), false)
+	}
+	if only == "" {
+		checkTraces(rep) // last: it calls GetAllCallingContexts in-process (see the watchdog there)
 	}
 	rep.Sample(map[string]any{"program": items[len(items)-1].id, "features": items[len(items)-1].features, "jobs": items[len(items)-1].jobs})
 	rep.Finish()
